@@ -1,6 +1,7 @@
 from excel2pycl.src.cell import Cell
 from excel2pycl.src.context import Context
 from excel2pycl.src.excel import Excel
+from excel2pycl.src.exceptions import E2PyclParserException
 from excel2pycl.src.translators.abstract_translator import AbstractTranslator
 
 
@@ -26,9 +27,18 @@ class CellTranslator(AbstractTranslator):
             if isinstance(cell.value, str) and cell.value.find('=') == 0:
                 from excel2pycl.src.ast_builder import AstBuilder
                 from excel2pycl.src.lexer import Lexer
-                lexer = Lexer.parse(cell.value, in_cell=cell)
-                ast = AstBuilder.parse(lexer, in_cell=cell)
-                code = EntryPointTokenTranslator.translate(ast, excel, context)
+                cell_uid = cell.uid
+                if cell_uid in context._cells_in_translation:
+                    # the cell is registered only after its formula has been translated, so without this marker
+                    # a circular reference recurses until RecursionError
+                    raise E2PyclParserException(f'Circular reference through {cell}')
+                context._cells_in_translation.add(cell_uid)
+                try:
+                    lexer = Lexer.parse(cell.value, in_cell=cell)
+                    ast = AstBuilder.parse(lexer, in_cell=cell)
+                    code = EntryPointTokenTranslator.translate(ast, excel, context)
+                finally:
+                    context._cells_in_translation.discard(cell_uid)
             else:
                 code = repr(cell.value) if cell.value is not None else 'self.EmptyCell()'
             context.set_cell(cell, code)
